@@ -8,6 +8,7 @@ satisfies the decidable predicate `well_formed`; the run applies them to the fre
 import os
 import re
 import subprocess
+from math import gcd
 
 ID = "C20"
 CRATE = "c20"
@@ -16,7 +17,7 @@ PROFILES = ["debug"]
 CASE_TYPE = "case"
 EXPLAIN = "explain"
 SHARD = 2000
-SEARCH_MAX = 500
+SEARCH_MAX = 160
 ESCALATE_MAX = 40
 AXIOM_ALLOW = []
 ROOT = os.path.dirname(os.path.dirname(os.path.abspath(__file__)))
@@ -62,13 +63,35 @@ THEOREMS = [
 
 RULE = ("invocation shapes of rec_lambda!: capture pattern over {&,&mut} (<= 4 captures, incl. none) x capture types {Vec<u64>,u64} x "
         "1..4 arguments x {return type, none} x {f!(a,b), f!(a,b,)}; quick = 0 captures in all combinations + every non-empty "
-        "pattern once + alternating patterns with 3 and 4 arguments in all combinations; thorough = all 496 combinations; "
-        "each shape is expanded by the real rustc (compared with the model's prediction), compiled and run against the "
-        "hand-written recursive fn; non-trivial = at least one mutable capture or a return value (something observable)")
+        "pattern once + alternating patterns with 3 and 4 arguments in all combinations + 12 spread shapes + count boundaries "
+        "(8 and 16 captures, 6 arguments); thorough = all 496 combinations + 5 captures + count boundaries up to 60 captures / 8 "
+        "arguments; each shape is expanded by the real rustc (compared with the model's prediction; the expansion under "
+        "-C debug-assertions=off must be the same text), compiled and run against the hand-written recursive fn, in a DEBUG "
+        "build and in a RELEASE build (-C opt-level=3 -C debug-assertions=off, library built likewise). On top of the base "
+        "program every shape carries program families (quick: one family per shape in rotation and all of them on the 12 "
+        "spread shapes; thorough: all of them on every shape of the stated quantifier), each again macro version against "
+        "hand-written version on the same shape: T recursive calls laid out inline / vertically over several lines / "
+        "without spaces (with syn=1 every call ends in a comma; the layouts rotate inside EVERY family); L calls inside "
+        "for/while/match arms/inner closures/vec!/format!/assert!/method receivers/operands/indices; E early return, break "
+        "with value out of labelled loops, ? in inner closures; A argument expressions that read or mutate captures, nested "
+        "calls, also without return value; Y argument types {usize,i64,tuple,array,Option,&[u64],String,&str,&mut Vec,bool,"
+        "Vec,Box,&u64}, capture types {Vec<Vec<usize>>,HashMap<(usize,usize),u64>,[u64;3],Cell,String,tuple,Box<dyn FnMut>,"
+        "fn pointer,&'static str,Option<Box>}, return types {(),bool,tuple,Vec,Option and Result with ?,Box,array,String,"
+        "usize}, reference arguments borrowed afresh in every iteration of the calling loop; D recursion depth 10^4 (quick) / "
+        "10^5 (thorough); R the macro site in a loop, repeated arguments, a panic at depth 2 caught by the caller and further "
+        "calls; G site inside a generic fn / method / closure, two lambdas with the same recursion name alive, the closure "
+        "as Fn+Copy / FnMut / &dyn Fn / Box<dyn ..> / iterator adaptor argument; N recursion name = capture / argument / "
+        "binding / std macro name; F recursion name = a free fn the body calls; H 1.2e6 (1.5e6) invocations of one closure "
+        "whose body returns early; K the crate's README examples and tests/tests.rs compiled and run against the freshly "
+        "built library; X the generated programs type check as edition 2018 and 2024 crates. non-trivial = at least one "
+        "mutable capture, a return value or a family (something observable)")
 TRUSTED = ["translator in checks/c20.py (macro_rules! arms of rlib/lambda/src/lib.rs -> Gallina value `macros`); its output is "
-           "cross-checked on every shape against rustc's real expansion (-Zunpretty=expanded)",
-           "executor harness/crates/c20 (generates one program per run, compiles it with rustc against the repository's "
-           "rlib_lambda, runs it, returns the expansion text)",
+           "cross-checked on every shape against rustc's real expansion (-Zunpretty=expanded); it refuses (broken obligation) "
+           "a macro of the model that is defined more than once or carries a cfg/cfg_attr attribute (directly, on its module, "
+           "or #![cfg] on the crate)",
+           "executor harness/crates/c20 (generates the programs of a run, compiles them with rustc against the repository's "
+           "rlib_lambda in a debug and a release configuration, runs them, returns the expansion text; `[lib] path` and "
+           "`edition` are read from rlib/lambda/Cargo.toml)",
            "rustc stable (compile and run) and nightly (-Zunpretty=expanded)",
            "checks/c20.py parser of the expansion text and Coq term printer"]
 ASSUMPTIONS = ["NOT modelled, covered only by the compile-and-run battery: rustc's parsing of ty/expr fragments, hygiene and name "
@@ -495,15 +518,17 @@ def snapshot_value():
 # A case = invocation shape (caps/tys/nargs/ret/syn) + optional program families `fams` (see harness/crates/c20/src/fam.rs):
 #   T call layouts, L call-site contexts, E early exits, A argument expressions using captures, Y other types
 #   (atys/ctys/rty), D<n> depth, R rounds + repeated calls + caught panic, G usage contexts / closure kind, N name
-#   collisions with values, F name collision with a free fn, K the crate's README + tests, X other editions.  Every family is one more pair of programs
+#   collisions with values, F name collision with a free fn, H<n> n invocations of a body with early returns,
+#   K the crate's README + tests, X other editions.  Every family is one more pair of programs
 #   (macro version / hand-written) on the same shape; what they print is appended to the two number lists of the case.
-PROGRAM_FAMS = "TLEAYDRGNF"
+PROGRAM_FAMS = "TLEAYDRGNFH"
 ARG_TYS = "abcdefghijklmn"        # u64 usize i64 (u64,u64) [u64;2] Option<u64> &[u64] String &str &mut Vec<u64> bool Vec<u64> Box<u64> &u64
 ARG_FIRST = "abcdefghilmn"        # types the first (depth) argument may have
 CAP_TYS = "VUWHACTPBFRO"          # Vec<u64> u64 Vec<Vec<usize>> HashMap<(usize,usize),u64> [u64;3] Cell<u64> String (u64,String)
 #                                   Box<dyn FnMut(u64)->u64> fn(u64)->u64 &'static str Option<Box<u64>>
 RET_TYS = "unbtvorxasz"           # u64 () bool (u64,bool) Vec<u64> Option<u64> Result<u64,String> Box<u64> [u64;2] String usize
 DEPTH = {"quick": 10000, "thorough": 100000}
+HIST = {"quick": 1200000, "thorough": 1500000}     # invocations of one closure (family H)
 
 
 def harness_line(c):
@@ -541,7 +566,7 @@ def with_fams(rng, c, fams):
 
 
 def fam_cycle(tier):
-    return ["T", "L", "E", "A", "Y", "D%d" % DEPTH[tier], "R", "G", "N", "F"]
+    return ["T", "L", "E", "A", "Y", "D%d" % DEPTH[tier], "R", "G", "N", "F", "H%d" % HIST[tier]]
 
 
 def all_fams(tier, extra=""):
@@ -581,7 +606,12 @@ def generate(rng, tier):
         for (p, n, ret, syn) in BIG_THOROUGH:
             c = mk(rng, p, n, ret, syn)
             cases.append(dict(c, tys="".join("U" if i % 3 == 2 else "V" for i in range(len(p)))))
-        return cases
+        # fixed stride permutation: every prefix of the list is a spread sample of all categories (the enlarged searches
+        # of the driver and of extra() take prefixes)
+        n, stride = len(cases), 389
+        while gcd(stride, n) != 1:
+            stride += 2
+        return [cases[(i * stride) % n] for i in range(n)]
     k = 0
     for n in (1, 2, 3, 4):                       # no captures, everything
         for ret in (0, 1):
@@ -613,16 +643,25 @@ def shrink(c):
     for i in range(len(fams)):
         out.append(dict(c, fams=fams[:i] + fams[i + 1:]))
     for i, f in enumerate(fams):
-        if f.startswith("D") and int(f[1:]) > 100:
-            out.append(dict(c, fams=fams[:i] + ["D%d" % (int(f[1:]) // 10)] + fams[i + 1:]))
+        if f[0] in "DH" and int(f[1:]) > 100:
+            out.append(dict(c, fams=fams[:i] + ["%s%d" % (f[0], int(f[1:]) // 10)] + fams[i + 1:]))
     cty = c.get("ctys") or ""
     aty = c.get("atys") or ""
+    typed = "Y" in fams
+
+    def upd(d, **kw):
+        d = dict(d)
+        for k, v in kw.items():
+            if k in ("atys", "ctys", "rty") and not typed:
+                continue
+            d[k] = v
+        return d
     for i in range(len(c["caps"])):
-        out.append(dict(c, caps=c["caps"][:i] + c["caps"][i + 1:], tys=c["tys"][:i] + c["tys"][i + 1:], ctys=cty[:i] + cty[i + 1:]))
+        out.append(upd(c, caps=c["caps"][:i] + c["caps"][i + 1:], tys=c["tys"][:i] + c["tys"][i + 1:], ctys=cty[:i] + cty[i + 1:]))
     if c["nargs"] > 1:
-        out.append(dict(c, nargs=c["nargs"] - 1, atys=aty[:c["nargs"] - 1]))
+        out.append(upd(c, nargs=c["nargs"] - 1, atys=aty[:c["nargs"] - 1]))
     if c["ret"]:
-        out.append(dict(c, ret=0, rty="-"))
+        out.append(upd(c, ret=0, rty="-"))
     if c["syn"]:
         out.append(dict(c, syn=0))
     if "U" in c["tys"]:
@@ -845,6 +884,21 @@ GEN_HEAD = ("From Coq Require Import List NArith Bool.\nImport ListNotations.\n"
             "From RlibV Require Import C20.Model C20.Spec C20.Corr C20.Current C20.Proofs C20.ProofsSem C20.Properties.\n")
 
 
+def lib_source(repo):
+    """the file cargo builds as the library: `[lib] path` of rlib/lambda/Cargo.toml, default src/lib.rs (the executor does the same)"""
+    path, section = "src/lib.rs", ""
+    try:
+        for line in open(os.path.join(repo, "rlib", "lambda", "Cargo.toml")):
+            l = line.split("#")[0].strip()
+            if l.startswith("["):
+                section = l
+            elif section == "[lib]" and "=" in l and l.split("=")[0].strip() == "path":
+                path = l.split("=", 1)[1].strip().strip('"')
+    except OSError:
+        pass
+    return os.path.join(repo, "rlib", "lambda", path)
+
+
 def prepare(ctx):
     """translate the source of this run, state and check the run-time obligations, point the batch files at the result"""
     global CORR_IMPORT
@@ -853,7 +907,7 @@ def prepare(ctx):
     st = {"translated": False, "error": "", "same_as_snapshot": False, "current_ok": False, "corollary_ok": False, "log": ""}
     STATE.clear()
     STATE.update(st)
-    src_path = os.path.join(ctx.repo, "rlib", "lambda", "src", "lib.rs")
+    src_path = lib_source(ctx.repo)
     value = None
     try:
         desc = translate(open(src_path).read())
@@ -938,8 +992,8 @@ def extra(ctx, known):
         # the driver has already reported a failing shape (spec_check) with its shrunk replay
         cov["note"] = "broken run-time obligations: %s; failing shapes were found among the generated cases" % (broken or "none")
     elif broken or differs:
-        # search for a failing shape with the full battery (all 496 combinations)
-        cases = generate(Rng(ctx.seed + 7919).fork(ID), "thorough")[:496]
+        # search for a failing shape with a spread sample of the thorough battery (every family, both build profiles)
+        cases = generate(Rng(ctx.seed + 7919 + 31).fork(ID), "thorough")[:SEARCH_MAX]
         try:
             bad, n = battery(ctx, cases)
         except RuntimeError as e:
@@ -979,21 +1033,27 @@ MANIFEST = {
             "rustc really generated). Correspondence: every generated shape is expanded by the real rustc "
             "(-Zunpretty=expanded; parameter list, both inner-macro transcribers, every expanded recursive call, closure "
             "compared with the model's prediction inside Coq), compiled and run against the hand-written recursive fn "
-            "(results and final captured state).",
+            "(results and final captured state) in a debug and in a release build, together with further programs on the "
+            "same shape (see level_note).",
     "level_note": "PARTIAL (c20_rustc_partial): the theorems are about the muncher model and its open-recursion semantics. NOT "
                   "modelled: rustc's fragment parsing (ty, expr), hygiene/name resolution, type checking, borrow checking; "
-                  "'compiles' is established only for the sampled shapes by the compile-and-run battery (quick 86 shapes, "
-                  "thorough 752). Trusted: Coq kernel + vm_compute, the translator and expansion parser in checks/c20.py "
-                  "(cross-checked against rustc's expansion on every shape), the executor, rustc stable/nightly. A translation "
-                  "that differs from the snapshot but is proved well_formed at run time and passes the enlarged battery is "
-                  "reported in the evidence, not as a violation (SNAPSHOT_STRICT=False).",
+                  "'compiles' and 'behaves like the hand-written function' are established only for the sampled programs by the "
+                  "compile-and-run battery (quick 108 shapes, thorough 810; debug and release build of each; program "
+                  "families per shape: call layouts incl. trailing comma and multi-line calls, call-site contexts, early exits, "
+                  "argument expressions using captures, other argument/capture/return types, depth 1e4/1e5, macro site in a "
+                  "loop + caught panic, usage contexts and closure kind, name collisions, 1.2e6 invocations, the crate's own "
+                  "README and tests, other editions). Trusted: Coq kernel + vm_compute, the translator and expansion parser in "
+                  "checks/c20.py (cross-checked against rustc's expansion on every shape), the executor, rustc stable/nightly. "
+                  "A translation that differs from the snapshot but is proved well_formed at run time and passes the enlarged "
+                  "battery is reported in the evidence, not as a violation (SNAPSHOT_STRICT=False). Conditional compilation "
+                  "around the macro definitions (cfg attributes, duplicate definitions) is reported as a broken obligation.",
     "technique": "Coq proof over a macro-muncher model generated from the source + real-expansion correspondence + compile-and-run battery",
 }
 
 
 if __name__ == "__main__":
     import sys
-    d = translate(open(os.path.join(os.environ.get("RLIB_REPO", "/repo"), "rlib/lambda/src/lib.rs")).read())
+    d = translate(open(lib_source(os.environ.get("RLIB_REPO", "/repo"))).read())
     if "--snapshot" in sys.argv:
         open(SNAPSHOT, "w").write(snapshot_text(d))
         print("written", SNAPSHOT)
